@@ -28,6 +28,7 @@ type paraIn struct {
 	Ht      []int64    `json:"ht"`  // heights (a wrong-height block has Ht != Ht[Par]+1)
 	Ops     [][3]int64 `json:"ops"` // kind (0 add, 1 delete, 2 add without block, 3 delete without block), block, sequence
 	Guarded bool       `json:"guarded"`
+	Witness bool       `json:"witness,omitempty"`
 }
 
 type paraStep struct {
@@ -238,7 +239,9 @@ func runPara(j job) result {
 		hlib.Z(out.Lo), hlib.Nat(out.N), hlib.List(ml), renderLog(out.OLog), hlib.Z(out.OLast),
 		renderReplies(out.Idx), renderReplies(out.MIdx), renderReplies(out.NilQ), renderRanges(out.Ranges))
 	kind := "para/"
-	if in.Guarded {
+	if in.Witness {
+		kind += "witness"
+	} else if in.Guarded {
 		kind += "guarded"
 	} else {
 		kind += "unrestricted"
@@ -363,6 +366,13 @@ func paraJob(in runIn) job {
 func paraJobs(r *hlib.Rng, n int) []job {
 	var jobs []job
 	var pt *paraTree
+	// the refutation witnesses of C26_para_main_seq_replay_refuted on real nodes: a delete under
+	// the number of the add record (what BlockChain.Rollback passes), and a lower number
+	wt := buildParaTree([]int{-1, 0, 1}, []int64{0, 1, 2})
+	for k, ops := range [][][3]int64{{{0, 1, 5}, {1, 1, 5}}, {{0, 1, 5}, {0, 2, 3}}, {{0, 1, 5}, {0, 2, 6}, {1, 2, 6}, {1, 1, 5}}} {
+		in := &paraIn{Save: k == 1, Par: wt.par, Ht: wt.ht, Ops: ops, Witness: true}
+		jobs = append(jobs, job{pt: wt, in: runIn{Kind: "para", Para: in, Ranges: [][2]int64{{0, 5}, {-1, 0}}}})
+	}
 	for k := 0; k < n; k++ {
 		if k%8 == 0 {
 			par, ht := genParaTree(r)
